@@ -297,6 +297,107 @@ void partitionCase(size_t idx) {
 	R_cover(what);
 }
 
+// ---- partition labels on the real samples, set on an object that has not been queried before (a query converts strip partitions and
+// fills caches) and without a rebuild afterwards: labels survive a copy, save+reload; after a vertex deletion every triangle is still held
+bool labelsKept(NifFile& f, NiShape* sh, const std::vector<Triangle>& tris, const std::map<Key, int>& labelOf, const std::string& what, const char* stage) {
+	R_eval();
+	NiVector<BSDismemberSkinInstance::PartitionInfo> inf2;
+	std::vector<int> tp2;
+	if (!f.GetShapePartitions(sh, inf2, tp2)) { R_viol("partition-labels", std::string(stage) + "/get-failed", what + ": GetShapePartitions failed"); return false; }
+	std::vector<Triangle> t2;
+	sh->GetTriangles(t2);
+	if (tp2.size() != t2.size() || t2.size() != tris.size()) { R_viol("partition-labels", std::string(stage) + "/label-count", what + fmt(": %zu labels, %zu triangles, %zu triangles before", tp2.size(), t2.size(), tris.size())); return false; }
+	for (size_t i = 0; i < t2.size(); i++) {
+		auto it = labelOf.find(keyOf(normTri(t2[i])));
+		if (it == labelOf.end()) { R_viol("partition-labels", std::string(stage) + "/triangles-not-a-permutation", what + ": a triangle that was not in the shape is read back"); return false; }
+		if (it->second >= 0 && tp2[i] != it->second) { R_viol("partition-labels", std::string(stage) + "/label-not-preserved", what + fmt(": triangle %zu was assigned to partition %d, reads back %d", i, it->second, tp2[i])); return false; }
+	}
+	R_stat("triangles_label_checked", (long)t2.size());
+	return true;
+}
+
+void realPartitionCase(size_t k) {
+	auto& smp = realSamples()[k / 2];
+	int variant = (int)(k % 2);
+	Rng rng(mix(g_cfg.seed, 0xC17D00 + k));
+	NifFile nif;
+	if (loadNif(nif, smp.bytes) != 0) return;
+	auto& ver = nif.GetHeader().GetVersion();
+	if (!(ver.IsOB() || ver.IsFO3() || ver.IsSK() || ver.IsSSE())) return;
+	for (auto s : nif.GetShapes()) {
+		auto si = nif.GetHeader().GetBlock<NiSkinInstance>(s->SkinInstanceRef());
+		if (!si) continue;
+		auto sp = nif.GetHeader().GetBlock(si->skinPartitionRef);
+		if (!sp || !nif.GetHeader().GetBlock(si->dataRef) || sp->partitions.empty()) continue;
+		std::vector<Triangle> tris;
+		s->GetTriangles(tris);
+		if (tris.empty()) continue;
+		// duplicate faces cannot carry two labels: only shapes with distinct triangles
+		std::map<Key, int> labelOf;
+		int np = (int)sp->partitions.size();
+		std::vector<int> tp(tris.size());
+		bool distinct = true;
+		for (size_t i = 0; i < tris.size(); i++) {
+			tp[i] = (int)rng.below((uint32_t)np);
+			if (!labelOf.insert({keyOf(normTri(tris[i])), tp[i]}).second) distinct = false;
+		}
+		if (!distinct) continue;
+		NiVector<BSDismemberSkinInstance::PartitionInfo> ninf;
+		for (int p = 0; p < np; p++) { BSDismemberSkinInstance::PartitionInfo pi; pi.flags = PF_EDITOR_VISIBLE; pi.partID = (uint16_t)(30 + p); ninf.push_back(pi); }
+		bool strips = false;
+		for (auto& p : sp->partitions) if (p.numStrips) strips = true;
+		std::string name = s->name.get();
+		std::string what = "partitions real:" + smp.name + " shape " + name + fmt(" [%d partitions%s, set without a query before or a rebuild after]", np, strips ? ", stored as strips" : "");
+		R_caseDesc(what);
+		R_phase("SetShapePartitions");
+		nif.SetShapePartitions(s, ninf, tp);
+		s = nif.FindBlockByName<NiShape>(name);
+		if (!s) return;
+		{
+			NifFile cp(nif);
+			if (auto cs = cp.FindBlockByName<NiShape>(name))
+				if (!labelsKept(cp, cs, tris, labelOf, what, "real/after-set")) return;
+		}
+		if (variant == 0) {
+			R_phase("save+reload");
+			NifFile cp(nif), re;
+			if (loadNif(re, saveNif(cp, true)) != 0) { R_viol("partition-labels", "real/reload/load", what + ": does not reload"); return; }
+			auto rs = re.FindBlockByName<NiShape>(name);
+			if (!rs) return;
+			if (!labelsKept(re, rs, tris, labelOf, what, "real/after-reload")) return;
+			auto errs = checkPartitions(re, rs, true, nullptr, false);
+			for (auto& e : errs) {
+				std::string cl = invClass(e);
+				if (cl.find("triangle") == std::string::npos && cl.find("vertex-map") == std::string::npos && cl.find("dismember") == std::string::npos) continue;
+				R_viol("partition-labels", "real/after-reload/" + cl, what + ": " + e);
+				return;
+			}
+		}
+		else {
+			R_phase("DeleteVertsForShape");
+			uint16_t nv = s->GetNumVertices();
+			std::vector<uint16_t> del;
+			for (uint16_t v = 0; v < nv; v++) if (rng.coin(40)) del.push_back(v);
+			if (del.empty()) del.push_back((uint16_t)(nv / 2));
+			nif.DeleteVertsForShape(s, del);
+			s = nif.FindBlockByName<NiShape>(name);
+			if (!s || s->GetNumTriangles() == 0) return;
+			R_eval();
+			// without a rebuild the per-vertex arrays of the partitions (weights, bone slots) are not this property's business: only
+			// what concerns the triangles and their assignment
+			auto errs = checkPartitions(nif, s, true, nullptr, false);
+			for (auto& e : errs) {
+				std::string cl = invClass(e);
+				if (cl.find("triangle") == std::string::npos && cl.find("vertex-map") == std::string::npos && cl.find("dismember") == std::string::npos) continue;
+				R_viol("partition-labels", "real/after-vertex-deletion/" + cl, what + fmt(" [%zu vertices deleted]: ", del.size()) + e);
+				return;
+			}
+		}
+		R_cover(what + std::to_string(variant));
+		return;   // one shape per case
+	}
+}
+
 struct Plan { size_t randomSeg; size_t parts; int exhN; };
 Plan plan() { return g_cfg.tier ? Plan{24000, 8000, 6} : Plan{1500, 600, 4}; }
 
@@ -356,6 +457,7 @@ void run(size_t idx) {
 		return;
 	}
 	idx -= p.randomSeg;
+	if (idx >= p.parts) { realPartitionCase(idx - p.parts); return; }
 	partitionCase(idx);
 	if (idx == 0) R_sample("{\"kind\":\"partition labels\",\"versions\":[\"OB\",\"FO3\",\"SK\",\"SSE\"]}");
 }
@@ -364,8 +466,8 @@ MonReg reg({"C17", "exploration",
 			"FO4/FO76 BSSubIndexTriShape built through the API. Exhaustive: 0..4 (quick) / 0..6 (thorough) triangles x every label list over {-1,0,1,2} x three segment structures "
 			"(3 flat segments, 1 segment with 2 sub-segments, 2 segments the second with a sub-segment, permuted ids). Random: 3..62 vertices, 0..200 triangles, 1..5 segments with 0..3 "
 			"sub-segments, permuted ids, label modes (all assigned, 25% unassigned, all in first, all in last, skewed), user slots below/above 30, extra data; half of them followed by a "
-			"random vertex deletion. Partition labels: OB/FO3/SK/SSE skinned shapes, 1..4 partitions, 25% unassigned. Oracle after set, after set(get()), after save+reload and after "
+			"random vertex deletion. Partition labels: OB/FO3/SK/SSE skinned shapes, 1..4 partitions, 25% unassigned; the skinned shapes of the real samples (incl. strip partitions) labelled without a query before or a rebuild after, then copied, saved+reloaded or cut by a vertex deletion. Oracle after set, after set(get()), after save+reload and after "
 			"vertex deletion(+reload): triangles are a permutation, read-back ids increase in segment order, every assigned label is preserved under the renumbering, every triangle "
 			"is labelled, label runs contiguous and ordered, stored table contiguous/nested/summing to the triangle count, user-slot/material/extra data kept. Non-trivial = case that passed all stages.",
-			[] { Plan p = plan(); return exhCases(p.exhN) + p.randomSeg + p.parts; }, run, 6, 300.0, false, false, nullptr});
+			[] { Plan p = plan(); return exhCases(p.exhN) + p.randomSeg + p.parts + realSamples().size() * 2; }, run, 6, 300.0, false, false, nullptr});
 } // namespace
